@@ -83,9 +83,14 @@ def handle (line : String) : Out :=
     let r : Option Out := do
       let ins ← section? "in" ins; let coll ← section? "coll" coll; let req ← section? "req" req
       let wd ← section? "wd" wd; let vk ← section? "vk" vk; let bw ← section? "bw" bw
-      let hasAlonzo ← (match era with
+      -- "+nc1" / "+nc2": a non-canonically encoded body; the model does not see encodings
+      let base := (era.splitOn "+").headD ""
+      let ncOk := match era.splitOn "+" with
+        | [_] => true | [_, v] => v = "nc1" ∨ v = "nc2" | _ => false
+      if !ncOk then none else
+      let hasAlonzo ← (match base with
         | "shelley" | "allegra" | "mary" => some false
-        | "alonzo" | "babbage" | "conway" => some true
+        | "alonzo" | "babbage" | "conway" | "dijkstra" => some true
         | _ => none)
       let ins ← ins.mapM parseOwner
       let coll ← coll.mapM parseOwner
